@@ -418,7 +418,24 @@ def build_pair(b0, b1, ft, rt, ch, coup, nsub, vqdim, fa):
     return vsynth.Stream(s, pk_seq(s, [0, 1, 1, 0, 1], f))
 
 
+def suite_bigbooks(tier):
+    """codebooks with more than 32767 used entries, every used entry coded (pylib/c01_big.py)"""
+    import c01_big
+    return c01_big.suite_bigbooks(tier, mine)
+
+
+def suite_f1class(tier):
+    """floor-1 class books smaller than / equal to / larger than subclasses**dim, shared class books (pylib/c01_f1class.py)"""
+    import c01_f1class
+    return c01_f1class.suite_f1class(tier, mine)
+
+
+META_KEYS = ('big_streams', 'big_entries_coded', 'big_coded_above_hint', 'big_entry_order_differs', 'bigclass_streams', 'bigclass_words_above_hint',
+             'f1class_streams', 'f1class_words', 'f1class_surplus_words', 'f1class_short_words', 'f1class_shared')
+
 SUITES = [('granule', suite_granule), ('pairs', suite_pairs), ('windows', suite_windows), ('codebooks', suite_codebooks), ('floor1', suite_floor1), ('floor0', suite_floor0), ('residue', suite_residue), ('mapping', suite_mapping)]
+# round-7 families: outside the time-share rule of the others (own allowance: quick 60 s each, thorough 150 s / 60 s)
+LATE = [('bigbooks', suite_bigbooks), ('f1class', suite_f1class)]
 
 
 # ------------------------------------------------------------------- workers
@@ -426,8 +443,9 @@ def worker(args):
     wid, nw, tier, suite_name, deadline = args
     _imp()
     _SH.update({'i': 0, 'wid': wid, 'nw': nw})
-    gen = dict(SUITES)[suite_name](tier)
-    out = {'n': 0, 'viol': [], 'outside': 0, 'judged': 0, 'samples': 0, 'nonzero_streams': 0, 'maxratio': 0.0, 'sigs': set(), 'cut': False, 'samples_list': [], 'died': 0}
+    gen = dict(SUITES + LATE)[suite_name](tier)
+    out = {'n': 0, 'viol': [], 'outside': 0, 'judged': 0, 'samples': 0, 'nonzero_streams': 0, 'maxratio': 0.0, 'sigs': set(), 'cut': False, 'samples_list': [], 'died': 0,
+           'meta': dict.fromkeys(META_KEYS, 0)}
     batch = []
 
     def flush():
@@ -450,21 +468,28 @@ def worker(args):
                 out['sigs'].add(tag[:6])
             if l is None:
                 out['died'] += 1
+            elif not bad:
+                # what the round-7 families really coded, counted only on streams that were decoded by both sides and judged
+                for k, v in getattr(st, 'c01_meta', {}).items():
+                    out['meta'][k] += v
             if bad:
-                out['viol'].append((repr(tag), bad[0], stream_dump(st)))
+                out['viol'].append((repr(tag), bad[0], stream_dump(st), res2_unaligned(st.setup)))
         del batch[:]
 
+    flushed = False
     for i, (tag, st) in enumerate(gen):
+        if flushed and time.time() > deadline:      # a further case exists and the suite's time share is used up
+            out['cut'] = True
+            break
+        flushed = False
         if callable(st):
             st = st()
         if len(out['samples_list']) < 2:
             out['samples_list'].append(repr(tag))
         batch.append((tag, st))
-        if len(batch) >= 40:
+        if len(batch) >= 40 or getattr(st, 'c01_heavy', False):      # heavy streams (seconds each) are judged one by one
             flush()
-            if time.time() > deadline:
-                out['cut'] = True
-                break
+            flushed = True
     flush()
     out['sigs'] = list(out['sigs'])
     return out
@@ -474,15 +499,12 @@ def stream_dump(st):
     return {'headers': [h.hex() for h in st.headers], 'packets': [p.hex() for p in st.packets], 'grans': st.grans, 'eos': st.eos}
 
 
-def res2_unaligned(dump):
-    """named predicate: some residue of type 2 whose partition size or begin is not a multiple of the number of channels in its bundle"""
+def res2_unaligned(s):
+    """named predicate over a Setup: some residue of type 2 whose partition size or begin is not a multiple of the number of channels in its bundle"""
     try:
-        hs = [bytes.fromhex(x) for x in dump['headers']]
-        idh = vspec.parse_id(hs[0])
-        s = vspec.parse_setup(hs[2], idh['channels'], idh['bs0'], idh['bs1'])
         for m in s.mappings:
             for sm in range(m.submaps):
-                nch = sum(1 for c in range(idh['channels']) if (m.mux[c] if m.mux else 0) == sm)
+                nch = sum(1 for c in range(s.channels) if (m.mux[c] if m.mux else 0) == sm)
                 r = s.residues[m.submap_residue[sm]]
                 if r.type == 2 and nch > 1 and (r.psize % nch or r.begin % nch):
                     return True
@@ -491,8 +513,8 @@ def res2_unaligned(dump):
     return False
 
 
-def classify(tag, msg, dump=None):
-    if dump is not None and 'library' in msg and res2_unaligned(dump):
+def classify(tag, msg, unaligned=False):
+    if unaligned and 'library' in msg:
         return 'res2_partition_not_multiple_of_channels'
     what = 'count' if 'sample count' in msg else 'rejected' if 'rejected' in msg else 'value' if 'library' in msg else 'other'
     head = tag.split(',')[0].strip("('")
@@ -514,40 +536,55 @@ def run(tier):
     t_end = time.time() + (150 if tier == 'quick' else 1380)
     tot = {'n': 0, 'outside': 0, 'judged': 0, 'samples': 0, 'nonzero_streams': 0, 'maxratio': 0.0, 'died': 0}
     sigs = set()
+    meta = dict.fromkeys(META_KEYS, 0)
     per_suite = {}
     cut_any = False
     with mp.Pool(nw) as pool:
-        for si, (name, _) in enumerate(SUITES):
-            share = time.time() + max(10.0, (t_end - time.time()) / (len(SUITES) - si))
+        # quick: the round-7 families run after the others (whose time shares stay as they were); thorough: first, inside the overall deadline
+        plan = [n for n, _ in SUITES] + [n for n, _ in LATE] if tier == 'quick' else [n for n, _ in LATE] + [n for n, _ in SUITES]
+        old_names = [n for n, _ in SUITES]
+        for name in plan:
+            if name in old_names:
+                share = time.time() + max(10.0, (t_end - time.time()) / (len(SUITES) - old_names.index(name)))
+            else:
+                share = time.time() + (60 if tier == 'quick' else 150 if name == 'bigbooks' else 60)
             rs = pool.map(worker, [(w, nw, tier, name, share) for w in range(nw)])
             ps = {'streams': 0, 'outside': 0, 'cut': False}
             for r in rs:
                 for k in ('n', 'outside', 'judged', 'samples', 'nonzero_streams', 'died'):
                     tot[k] += r[k]
                 tot['maxratio'] = max(tot['maxratio'], r['maxratio'])
+                for k in META_KEYS:
+                    meta[k] += r['meta'][k]
                 ps['streams'] += r['n']
                 ps['outside'] += r['outside']
                 ps['cut'] = ps['cut'] or r['cut']
                 sigs.update(tuple(x) for x in r['sigs'])
-                for tag, msg, dump in r['viol']:
-                    chk.violation(classify(tag, msg, dump), f'{tag}: {msg}', {'tag': tag, 'stream': dump})
+                for tag, msg, dump, unal in r['viol']:
+                    chk.violation(classify(tag, msg, unal), f'{tag}: {msg}', {'tag': tag, 'stream': dump})
                 if len(chk.cov['samples']) < 12:
                     chk.cov['samples'] += r['samples_list'][:1]
             cut_any = cut_any or ps['cut']
             per_suite[name] = ps
     chk.cov.update({'evaluations': tot['n'], 'distinct_nontrivial': len(sigs), 'exhaustive': not cut_any, 'per_suite': per_suite,
                     'streams_outside_reference_alphabet': tot['outside'], 'samples_compared': tot['samples'], 'samples_with_tight_budget': tot['judged'],
-                    'max_error_over_budget_ratio': round(tot['maxratio'], 4), 'executor_deaths': tot['died'],
-                    'rule': 'streams written bit-by-bit from the specification (never by the encoder): suites windows (36 block-size pairs x mode sequences), codebooks (all complete prefix codes <=5 entries x orders x sparse/ordered/single x lookup 1/2 x dims x value formats; 32-bit deep and 300/1000-entry books), floor1 (multipliers x range bits x partition/class/subclass layouts x X orders x Y vectors), floor0 (orders x bark maps x amplitude bits x books x dims x rates), residue (types 0/1/2 x begin/end cases x partition sizes x classifications x cascades x channels x do-not-decode patterns), mapping (submaps x mux x coupling lists x modes, 255 channels); '
+                    'max_error_over_budget_ratio': round(tot['maxratio'], 4), 'executor_deaths': tot['died'], 'round7_families': meta,
+                    'rule': 'streams written bit-by-bit from the specification (never by the encoder): suites windows (36 block-size pairs x mode sequences), codebooks (all complete prefix codes <=5 entries x orders x sparse/ordered/single x lookup 1/2 x dims x value formats; 32-bit deep and 300/1000-entry books), floor1 (multipliers x range bits x partition/class/subclass layouts x X orders x Y vectors), floor0 (orders x bark maps x amplitude bits x books x dims x rates), residue (types 0/1/2 x begin/end cases x partition sizes x classifications x cascades x channels x do-not-decode patterns), mapping (submaps x mux x coupling lists x modes, 255 channels), bigbooks (codebooks with 32767/32768/32769/65536 used entries [thorough: 10 sizes up to 131072] x 3 codeword-length orders (ascending, descending, three lengths scattered) x dense/sparse, EVERY used entry coded through residue 1 [thorough: also lookup 2, dimension 2, residue 0 and 2]; residue classification books with 2^15, 2^16, 4^8, 16^4 entries [thorough: 8 shapes] read in scalar context at both ends, both sides of sorted position 32768 from either end and the first-table bucket edges), f1class (floor-1 class books of 2,3,4,5,8,16,17,64,256 entries [thorough: 19 sizes up to 4096] x class dimension 1..8 x subclass bits 1..3, i.e. smaller than, equal to and larger than subclasses^dim, and every pair of class shapes with dim*bits <= 8 [thorough: 10] sharing one class book; EVERY class-book entry coded for every class); '
                             'judged: per-packet sample count exact; |lib-ref| <= 2^-20*sum|spectrum| + propagated VQ/floor rounding budget; distinct_nontrivial = distinct coordinate prefixes of streams that produced non-zero judged audio'})
     chk.assumptions += ['IMDCT normalisation taken as y[i]=sum X[k]cos(2pi/n(i+1/2+n/4)(k+1/2)) (the specification defers to a citation)',
                         'floor 0: LSP accumulation across VQ vectors follows the evident intent of steps 8-9 (the literal "continue at step 6" would reset it)',
-                        'residue partition sizes are multiples of the codebook dimension; classbook entries beyond classifications^dim are never coded; VQ magnitudes stay far below 2^40',
+                        'residue partition sizes are multiples of the codebook dimension; residue classbook entries beyond classifications^dim are never coded (floor-1 class books of every size are coded in full); VQ magnitudes stay far below 2^40',
                         'streams whose floor-1 final Y leaves [0,range) or whose floor-0 curve is not finite are outside the alphabet (counted, not judged)',
                         'truncated packets are not "complete audio packets" and are left to C02']
     chk.guard(tot['nonzero_streams'] > 0.5 * (tot['n'] - tot['outside']), 'more than half of the judged streams produced non-zero audio')
     chk.guard(tot['outside'] < 0.35 * max(1, tot['n']), 'fewer than 35% of the streams fell outside the reference alphabet')
     chk.guard(tot['died'] == 0, 'the executor answered for every stream')
+    if not per_suite['bigbooks']['cut']:
+        chk.guard(meta['big_coded_above_hint'] >= 32768 and meta['big_entry_order_differs'] >= 2 and meta['bigclass_words_above_hint'] >= 100,
+                  'codewords at sorted positions above 32767 of books with more than 32767 used entries were decoded and judged (value and scalar context, entry order != codeword order)')
+    if not per_suite['f1class']['cut']:
+        chk.guard(meta['f1class_surplus_words'] >= 1000 and meta['f1class_short_words'] >= 100 and meta['f1class_shared'] >= 10,
+                  'floor-1 class words with bits above subclass_bits*dim were decoded and judged (oversized and shared class books), and undersized ones too')
     return chk.finish()
 
 
